@@ -314,6 +314,27 @@ class Tree:
 _EMPTY: Tuple[int, ...] = ()
 
 
+class _deep_recursion:
+    """The interpreter recurses once per grammar operator per nesting level of the input (about 30
+    frames per bracket level of a JSONPath query): lift Python's limit for the duration of a call."""
+
+    LIMIT = 200000
+
+    def __enter__(self):
+        import sys
+
+        self.old = sys.getrecursionlimit()
+        if self.old < self.LIMIT:
+            sys.setrecursionlimit(self.LIMIT)
+        return self
+
+    def __exit__(self, *exc):
+        import sys
+
+        sys.setrecursionlimit(self.old)
+        return False
+
+
 class Grammar:
     def __init__(self, ruledefs: "Dict[str, tuple]", display: "Dict[str, str]", order: List[str]) -> None:
         self._defs = ruledefs  # name -> syntax node
@@ -808,15 +829,15 @@ class Grammar:
         """All end positions e such that text[pos:e] derives from `rule`."""
         name = self._rule(rule)
         cs = self._codes(text)
-        if name in self._pure and False:
-            pass
-        return sorted(self._rule_fns[name](cs, pos, {}))
+        with _deep_recursion():
+            return sorted(self._rule_fns[name](cs, pos, {}))
 
     def matches(self, rule: str, text: str) -> bool:
         name = self._rule(rule)
         cs = self._codes(text)
         n = len(text)
-        r = self._rule_fns[name](cs, 0, {})
+        with _deep_recursion():
+            r = self._rule_fns[name](cs, 0, {})
         return n in r
 
     class Session:
@@ -833,7 +854,8 @@ class Grammar:
             when j is not the end of the text, because rules may look at what follows only through
             their own end sets, which is exactly what `ends` gives)."""
             name = self.g._rule(rule)
-            return j in self.g._rule_fns[name](self.cs, i, self.memo)
+            with _deep_recursion():
+                return j in self.g._rule_fns[name](self.cs, i, self.memo)
 
         def matches(self, rule: str) -> bool:
             return self.span_matches(rule, 0, len(self.text))
@@ -851,9 +873,10 @@ class Grammar:
     def _parse(self, ses: "Grammar.Session", rule: str) -> Optional[Tree]:
         name = self._rule(rule)
         n = len(ses.text)
-        if n not in self._rule_fns[name](ses.cs, 0, ses.memo):
-            return None
-        kids = self._derive(self._bodies[name], 0, n, ses)
+        with _deep_recursion():
+            if n not in self._rule_fns[name](ses.cs, 0, ses.memo):
+                return None
+            kids = self._derive(self._bodies[name], 0, n, ses)
         return Tree(self._display[name], 0, n, kids, ses.text)
 
     def _derive(self, node: _N, i: int, j: int, ses: "Grammar.Session") -> List[Tree]:
